@@ -157,7 +157,7 @@ Print Assumptions c17_close_ends_clients_refuted_wrapping_auth.
 
 (* The model is the one the current source was translated to: control skeletons and facts (proofs/ServerTie.v). *)
 Theorem c17_program_is_current :
-  Gen_server.close_prog = Server.close_prog /\ Gen_server.accept_prog = Server.accept_prog_of Gen_server.accept_survives_oserror Gen_server.accept_rechecks_closed
+  Gen_server.close_prog = Server.close_prog /\ Gen_server.accept_prog = Server.accept_prog_of Gen_server.accept_survives_oserror Gen_server.accept_rechecks_closed Gen_server.accept_survives_spawn_failure
   /\ Gen_server.worker_prog = Server.worker_prog_of Gen_server.worker_tracks_served /\ Gen_server.oneshot_prog = Server.oneshot_prog
   /\ Gen_server.threaded_prog = Server.threaded_prog /\ Gen_server.forking_prog = Server.forking_prog
   /\ (exists before, Gen_server.pool_close_prog = Server.pool_close_prog_of before Gen_server.pool_close_drops)
@@ -183,7 +183,8 @@ Definition no_z (b : list byte) : option (list byte) := None.
 Definition no_d (b : list byte) : option req := None.
 Definition KT (k : skind) (fix_ : bool) : cfg :=
   {| kind := k; fx := {| Server.pool_close_drops := fix_; Server.pool_fail_discards := fix_; Server.fork_parent_keeps := false; Server.pool_catches_base := false;
-             Server.worker_tracks_served := false; Server.accept_survives_oserror := false; Server.accept_rechecks_closed := false |};
+             Server.worker_tracks_served := false; Server.accept_survives_oserror := false; Server.accept_rechecks_closed := false;
+             Server.accept_survives_spawn_failure := false |};
      has_auth := false; class_svc := true; nworkers := 2; batch := 10; auth_replaces := false |}.
 Definition runx (K : cfg) (l : list event) : option st := exec no_z no_d K l (init K).
 
